@@ -2,6 +2,7 @@ package main
 
 import (
 	"flag"
+	"go/types"
 	"fmt"
 	"os"
 	"runtime/debug"
@@ -20,6 +21,9 @@ type World struct {
 	MR *ModRef
 	FE *FactEngine
 	LK *LockEngine
+	// Region: for a root function, the single-call-site helpers (transitively) that are analysed as
+	// part of it (parameters bound to the arguments of their one call site, facts flowing in and out)
+	Region map[*ssa.Function][]*ssa.Function
 }
 
 func BuildWorld(dir string, env []string, overlay map[string][]byte) *World {
@@ -27,9 +31,20 @@ func BuildWorld(dir string, env []string, overlay map[string][]byte) *World {
 	ts := NewTerms(p)
 	cg := BuildCallGraph(p)
 	ts.cg = cg
+	region := map[*ssa.Function][]*ssa.Function{}
+	for _, rootName := range regionRoots {
+		if root := p.FuncOpt(rootName); root != nil {
+			region[root] = foldRegion(p, cg, ts, root)
+		}
+	}
 	mr := BuildModRef(p, cg, ts)
 	fe := NewFactEngine(p, ts, cg, mr)
-	w := &World{P: p, TS: ts, CG: cg, MR: mr, FE: fe}
+	for _, members := range region {
+		for _, g := range members {
+			fe.inlineAt[g] = singleSite[g]
+		}
+	}
+	w := &World{P: p, TS: ts, CG: cg, MR: mr, FE: fe, Region: region}
 	w.LK = NewLockEngine(w)
 	return w
 }
@@ -241,4 +256,86 @@ func dumpModRef(w *World, name string) {
 			fmt.Println("   via", k.fv.Name(), k.via)
 		}
 	}
+}
+
+// regionRoots: functions whose single-call-site helpers are folded into them. The query handler is the
+// one place where "extract this switch case into a method" is a likely, behaviour-preserving edit that
+// must not change any verdict.
+var regionRoots = []string{"(*Server).handleQuery"}
+
+var singleSite = map[*ssa.Function]ssa.Instruction{}
+
+// foldRegion finds the module functions that are called (statically, synchronously) from exactly one
+// call instruction in the whole module, that instruction lying in root or in an already folded
+// helper (closures of those included), and binds their parameters to the arguments of that site.
+func foldRegion(p *Program, cg *CallGraph, ts *Terms, root *ssa.Function) []*ssa.Function {
+	sites := map[*ssa.Function][]ssa.Instruction{}
+	other := map[*ssa.Function]bool{} // referenced in some other way (go, defer, value, callback)
+	for _, f := range p.ModFuncs {
+		for _, b := range f.Blocks {
+			for _, ins := range b.Instrs {
+				c := callInstrCommon(ins)
+				if c != nil {
+					if sc := c.StaticCallee(); sc != nil && p.IsMod(sc) {
+						if _, isCall := ins.(*ssa.Call); isCall {
+							sites[sc] = append(sites[sc], ins)
+						} else {
+							other[sc] = true
+						}
+					}
+				}
+				for _, op := range ins.Operands(nil) {
+					if g, ok := (*op).(*ssa.Function); ok && c != nil && c.Value != ssa.Value(g) {
+						other[g] = true
+					} else if ok && c == nil {
+						other[g] = true
+					}
+				}
+			}
+		}
+	}
+	inRegion := map[*ssa.Function]bool{root: true}
+	var members []*ssa.Function
+	work := []*ssa.Function{root}
+	depthOf := map[*ssa.Function]int{root: 0}
+	for len(work) > 0 {
+		f := work[0]
+		work = work[1:]
+		for _, fn := range append([]*ssa.Function{f}, allAnon(f)...) {
+			for _, b := range fn.Blocks {
+				for _, ins := range b.Instrs {
+					call, ok := ins.(*ssa.Call)
+					if !ok {
+						continue
+					}
+					g := call.Call.StaticCallee()
+					if g == nil || !p.IsLib(g) || inRegion[g] || other[g] || len(sites[g]) != 1 || g.Parent() != nil || g.Synthetic != "" || len(g.Blocks) == 0 {
+						continue
+					}
+					if obj, ok := g.Object().(*types.Func); !ok || obj.Exported() {
+						continue // exported API may be called from outside the module
+					}
+					if depthOf[f] >= 3 {
+						continue
+					}
+					inRegion[g] = true
+					depthOf[g] = depthOf[f] + 1
+					members = append(members, g)
+					singleSite[g] = call
+					for i, prm := range g.Params {
+						if i < len(call.Call.Args) {
+							ts.paramBind[prm] = call.Call.Args[i]
+						}
+					}
+					work = append(work, g)
+				}
+			}
+		}
+	}
+	return members
+}
+
+// RegionOf: root plus its folded helpers.
+func (w *World) RegionOf(root *ssa.Function) []*ssa.Function {
+	return append([]*ssa.Function{root}, w.Region[root]...)
 }
